@@ -581,6 +581,11 @@ theorem run_bal (cid : Nat) (c : Cfg) (e : Env) (s : State) (G : List Inst) (h :
     simp only at hctx
     subst hctx
     dsimp only
+    by_cases hadm : e.adm = 2
+    · simp only [hadm, if_true]
+      rw [hcb]
+      exact cancel_all_bal cid ctx.wkeys ctx.live s1 G hb
+    simp only [hadm, if_false]
     have h2 := (startApps_quiet cid e.blocked (order e.ps ctx.apps) [] s1).sb hb
     generalize startApps cid e.blocked [] (order e.ps ctx.apps) s1 = r2 at h2
     obtain ⟨s2, b⟩ := r2
@@ -638,6 +643,10 @@ theorem run_ctx_none (cid : Nat) (c : Cfg) (e : Env) (s : State) (h : (run cid c
     | none => rfl
     | some ctx =>
       dsimp only at h ⊢
+      split
+      · rfl
+      rename_i hadm
+      simp only [hadm, if_false] at h
       generalize startApps cid e.blocked [] (order e.ps ctx.apps) s1 = r2 at h ⊢
       obtain ⟨s2, b⟩ := r2
       cases b with
